@@ -861,7 +861,12 @@ func TestVerif_C28(t *testing.T) {
 						if last.Clear {
 							lp = "clear:" + lp
 						}
-						c.Violate(fmt.Sprintf("%s%s: %s differs from the pure-PQL history when the last write goes through %s", g.Type, kd, c28QClass(q.Kind), lp),
+						fk := fmt.Sprintf("%s%s: %s differs from the pure-PQL history when the last write goes through %s", g.Type, kd, c28QClass(q.Kind), lp)
+						if c28QClass(q.Kind) != "TopN" {
+							// data (not cache) differs: name the whole path combination
+							fk = fmt.Sprintf("%s%s: %s differs from the pure-PQL history, paths=%s", g.Type, kd, c28QClass(q.Kind), c28PathsOf(v))
+						}
+						c.Violate(fk,
 							desc(), q.Q+" -> "+out.Answers[qi], q.Q+" -> "+ref.Answers[qi]+" (through "+c28PathsOf(g.Variants[0])+")")
 					}
 					if out.Model[qi] != "" && out.Model[qi] != out.Answers[qi] {
